@@ -88,13 +88,19 @@
    day: 7 against the allowance 5 in the example below; the tight count is 4).
    C03_step_bound_suffices: the tight count over the held commodities <= step_bound.
 
+   ROWS AGGREGATED BY --mapping / SWAPPED BY --remap (Proofs/MarkToMarketMapped.v, vocabulary
+   Spec/MarkToMarketMappedSpec.v): C03_windowed_mapped: a row b of asset/liability type, whatever
+   the mapping rules and --remap do, shows the sum over the accounts that land on it (lands_on:
+   remap, then the first matching rule; row_sources: the accounts with bookings in the journal that
+   land on b and pass --account, each once; C03_sources_of: the executable list sources_of is one)
+   of their mark-to-market changes, up to the sum of their step counts.  No shows_account condition;
+   an account shown as itself is the case srcs = [a].
+
    NOT PROVED (decided on every run by evaluating mtm_row / within_bound on the binary's output and
    by the byte-exact correspondence of the model):
    * the printed row: that the renderer's collapsed line of a valued row is the sum over the
      commodity keys of the node and the cumulative presentation over the columns (C02_row_cumulative
      gives the latter per key); value_cell here is the sum of the tree's cells;
-   * rows aggregated by --mapping / swapped by --remap (the sum over the accounts mapped onto a row;
-     accounts shown as themselves are covered whatever happens to the other accounts);
    * that mtm_expected is Some whenever the run succeeds (C03_held_has_price gives it for the last
      day of the run). *)
 From Coq Require Import ZArith QArith Qabs List Bool.
@@ -601,6 +607,65 @@ Example C03_example_model_meets_spec :
     map (fun col => Qred (row_value exr_a part col r coms)) (end_dates part)
       = [57407409 # 50000000; 87407409 # 50000000; 82962963 # 20000000] /\
     ValuationSpec.within_bound (mkDec 414814815 (-8)) (mkDec 4148148159 (-9)) 5 = true
+  | _, _ => False
+  end.
+Proof. vm_compute. repeat split; discriminate. Qed.
+
+(* ================================================================== rows aggregated by --mapping / --remap *)
+From Knut Require Import Spec.MarkToMarketMappedSpec Proofs.MarkToMarketMapped.
+Open Scope Q_scope.
+
+(* THE WINDOW for any row of asset/liability type: with srcs the accounts of the journal that remap
+   and the mapping rules send onto b (and that pass --account), over any list of commodities that
+   pass --commodity:
+     | row b  -  sum_{a in srcs} (sum_c Q_col(a,c) p_col(c) - sum_c Q_s(a,c) p_s(c)) |  <=  sum_{a in srcs} n_steps(a) * 10^-8
+   n_steps(a) the tight count of C03_windowed_tight.  Side conditions: the parser's guarantee on
+   account names, b syntactically valid, the window is not empty, col is a period end. *)
+Theorem C03_windowed_mapped : forall cfg ds r part V,
+  bc_valuation cfg = Some V ->
+  balance_report cfg ds = COk (r, part) ->
+  exists dl,
+    parse_directives ds = MOk dl /\
+    new_partition (clip (mkPeriod (bc_from cfg) (bc_to cfg)) (journal_period dl)) (bc_interval cfg) (bc_last cfg) = POk part /\
+    (postings_syntactic dl ->
+     forall b srcs col coms, account_ok b = true -> is_AL b = true -> row_sources cfg dl b srcs ->
+       (forall c, In c coms -> com_pass cfg c = true) ->
+       (p_start (span part) <= p_end (span part))%Z -> In col (end_dates part) ->
+       Qabs (row_value b part col r coms
+             - (mv_row_sum dl V srcs col coms - mv_row_sum dl V srcs (p_start (span part) - 1) coms))
+         <= inject_Z (steps_sum dl V srcs (p_start (span part)) col coms) * (1 # 100000000)).
+Proof. exact windowed_row_mapped. Qed.
+Print Assumptions C03_windowed_mapped.
+
+(* the aggregated accounts exist as an executable list *)
+Theorem C03_sources_of : forall cfg dl b, postings_syntactic dl -> row_sources cfg dl b (sources_of cfg dl b).
+Proof. exact sources_of_spec. Qed.
+Print Assumptions C03_sources_of.
+
+(* remap and the mapping rules keep an account in its class: what lands on an asset/liability row is
+   an asset or a liability (so CloseAccounts and the Income mirrors never reach such a row) *)
+Theorem C03_lands_class : forall cfg b a,
+  account_ok a = true -> account_ok b = true -> lands_on cfg b a = true -> is_AL a = is_AL b.
+Proof. exact lands_class. Qed.
+Print Assumptions C03_lands_class.
+
+(* Both sides on a report with --mapping 2 and --close (Proofs/MarkToMarketMapped.v exm_journal):
+   Assets:B:X buys 1.5 A before the window, Assets:B:Y 0.3 A inside; both are shown on the row
+   Assets:B, which carries the numbers of C03_example_windowed_report; the accounts themselves have
+   no row. *)
+Example C03_example_mapped_row :
+  match balance_report exm_cfg exm_journal, parse_directives exm_journal with
+  | COk (r, part), MOk dl =>
+    let W := p_start (span part) in
+    let srcs := sources_of exm_cfg dl exm_b in
+    postings_syntactic_b dl = true /\ account_ok exm_b = true /\ is_AL exm_b = true /\
+    srcs = [exm_x; exm_y] /\ com_pass exm_cfg exr_c = true /\
+    map (fun col => Qred (row_value exm_b part col r [exr_c])) (end_dates part)
+      = [57407409 # 50000000; 87407409 # 50000000; 82962963 # 20000000] /\
+    map (fun col => Qred (mv_row_sum dl exr_V srcs col [exr_c] - mv_row_sum dl exr_V srcs (W - 1) [exr_c])) (end_dates part)
+      = [57407409 # 50000000; 1748148183 # 1000000000; 4148148159 # 1000000000] /\
+    map (fun col => steps_sum dl exr_V srcs W col [exr_c]) (end_dates part) = [2; 5; 7]%Z /\
+    map (fun col => Qred (row_value exm_x part col r [exr_c])) (end_dates part) = [0; 0; 0]
   | _, _ => False
   end.
 Proof. vm_compute. repeat split; discriminate. Qed.
